@@ -200,6 +200,9 @@ class Context:
         _key = self.__keytransform__(src, dst)
         self.funcs[_key] = func
         self.relation_to_context[_key] = self
+        # the registry has to express the new endpoints in base dimensions
+        # at the next activation
+        self.checked = False
 
     def remove_transformation(self, src: UnitLike, dst: UnitLike) -> None:
         """Add a transformation function to the context."""
